@@ -201,6 +201,14 @@ def gen_cases(rng, tier):
                      "g": _dy(rng), "alpha": [_dy(rng), _dy(rng)], "mu": [_dy(rng), _dy(rng)],
                      "sigma": [_q(rng.choice([1, 2, Fraction(1, 2)])), _q(rng.choice([1, 2, -1]))]}
                 cases.append(c)
+    # heterogeneous growth rate r(x) in one space dimension (Fisher-KPP): the separable version gets the map on the
+    # batch column, the pointwise version at the point; compared grid index by grid index (no model: Holds only)
+    for B in ((2, 3) if quick else (1, 2, 3, 4)):
+        c = {"family": "residual", **_base(rng, True, 2, 2, 1, 2, B), "name": "fisher",
+             "Tmax": _q(rng.choice([1, 2])), "nu": "0", "Dc": _dy(rng), "r": _q(rng.choice([1, 2, -1])),
+             "g": _dy(rng), "alpha": ["0", "0"], "mu": ["0", "0"], "sigma": ["1", "1"],
+             "het_r": _q(rng.choice([1, 2, Fraction(1, 2)]))}
+        cases.append(c)
     # ---- boundary terms ---------------------------------------------------------------------------
     for _ in range(1 if quick else 2):
         for time in (False, True):
@@ -508,6 +516,11 @@ def run_impl(case):
                     if op == "burgers":
                         return BurgerEquation(Tmax=Tmax).evaluate(t, x, sp, params)
                     if op == "fisher":
+                        if case.get("het_r") is not None:
+                            # r heterogeneous in space (1-D): the separable version receives the batch column
+                            hc = float(Fraction(case["het_r"]))
+                            het = {"D": None, "g": None, "r": lambda t_, x_, u_, p_: p_.eq_params["r"] * (1.0 + hc * x_[:, 0])}
+                            return FisherKPP(Tmax=Tmax, eq_params_heterogeneity=het).evaluate(t, x, sp, params)
                         return FisherKPP(Tmax=Tmax).evaluate(t, x, sp, params)
                     if op == "ou":
                         return OU_FPENonStatioLoss2D(Tmax=Tmax).evaluate(t, x, sp, params)
@@ -537,13 +550,17 @@ def run_impl(case):
                     if op == "burgers":
                         return BurgerEquation(Tmax=Tmax).evaluate(t, x, pinn, params)
                     if op == "fisher":
+                        if case.get("het_r") is not None:
+                            hc = float(Fraction(case["het_r"]))
+                            het = {"D": None, "g": None, "r": lambda t_, x_, u_, p_: p_.eq_params["r"] * (1.0 + hc * x_[0])}
+                            return FisherKPP(Tmax=Tmax, eq_params_heterogeneity=het).evaluate(t, x, pinn, params)
                         return FisherKPP(Tmax=Tmax).evaluate(t, x, pinn, params)
                     if op == "ou":
                         return OU_FPENonStatioLoss2D(Tmax=Tmax).evaluate(t, x, pinn, params)
                     raise ValueError(op)
                 return lambda cp, Z, eqp, *extra: jax.vmap(lambda z: one(cp, z, eqp, *extra))(Z)
 
-            tm = Tmax if fam == "residual" else None
+            tm = (Tmax, case.get("het_r")) if fam == "residual" else None
             ff = _jit(("fwd", op, tm) + static, fwd_fn)
             rf = _jit(("rev", op, tm) + static, rev_fn)
             ex_f = (csp,) if op == "ns" else ()
@@ -654,6 +671,8 @@ def _req(case, r):
         elif lab in ("lap", "div", "veclap", "adv", "ns", "mass"):
             base.update({"what": "op", "which": "div" if lab == "mass" else lab, "d": dx, "m": case["M"],
                          "nu": case["nu"], "rho": case["rho"], "coef_p": case["coef_p"], "R_p": case["R_p"]})
+        elif case.get("het_r") is not None:
+            base["what"] = "holds_only"
         else:
             base.update({"what": "residual", "name": lab, "d": dx, "Tmax": case["Tmax"], "nu": case["nu"],
                          "Dc": case["Dc"], "r": case["r"], "g": case["g"], "alpha": case["alpha"], "mu": case["mu"],
@@ -709,6 +728,8 @@ def judge(case, obs, answers):
         k += 1
         if not a["holds"]:
             return {"status": "violation", "clause": a["clause"], "label": r["label"]}
+        if case.get("het_r") is not None:
+            continue
         if not a["agree"] and disagree is None:
             disagree = {"status": "disagree", "clause": "model-differs", "label": r["label"],
                         "detail": {x: a.get(x) for x in ("model_rejects", "agree_fwd", "agree_rev", "model_fwd", "model_rev")}}
@@ -732,7 +753,7 @@ def nontrivial(case, obs):
 
 
 def tags(case, obs):
-    out = [f"family={case['family']}", "time" if case["time"] else "no_time", f"D={case['D']}", f"B={len(case['X'])}",
+    out = (["heterogeneous_r"] if case.get("het_r") is not None else []) + [f"family={case['family']}", "time" if case["time"] else "no_time", f"D={case['D']}", f"B={len(case['X'])}",
            f"M={case['M']}", f"R={case['R']}"]
     for r in obs["results"]:
         out.append(f"op={r['label'].split(':')[0]}")
